@@ -1,1 +1,491 @@
-// placeholder
+//! Text / byte codecs written from their specifications: hex, Base58 and Base58Check (Bitcoin
+//! alphabet), strict DER for ECDSA signatures (BIP 66 shape), WIF and P2PKH addresses.
+//! Big-number based and deliberately naive; this is a test oracle.
+
+use crate::refimpl::hashes::sha256d;
+use num_bigint::BigUint;
+use num_traits::Zero;
+
+// ---------------------------------------------------------------------------------------------
+// hex
+// ---------------------------------------------------------------------------------------------
+
+/// Lower-case hex.
+pub fn hex_encode(b: &[u8]) -> String {
+    const DIGITS: &[u8; 16] = b"0123456789abcdef";
+    let mut out = String::with_capacity(b.len() * 2);
+    for byte in b {
+        out.push(DIGITS[(byte >> 4) as usize] as char);
+        out.push(DIGITS[(byte & 0x0f) as usize] as char);
+    }
+    out
+}
+
+fn hex_value(c: u8) -> Option<u8> {
+    match c {
+        b'0'..=b'9' => Some(c - b'0'),
+        b'a'..=b'f' => Some(c - b'a' + 10),
+        b'A'..=b'F' => Some(c - b'A' + 10),
+        _ => None,
+    }
+}
+
+/// Accepts upper and lower case; None on odd length or any non-hex character (no prefixes,
+/// no whitespace).
+pub fn hex_decode(s: &str) -> Option<Vec<u8>> {
+    let bytes = s.as_bytes();
+    if bytes.len() % 2 != 0 {
+        return None;
+    }
+    let mut out = Vec::with_capacity(bytes.len() / 2);
+    for pair in bytes.chunks(2) {
+        out.push((hex_value(pair[0])? << 4) | hex_value(pair[1])?);
+    }
+    Some(out)
+}
+
+// ---------------------------------------------------------------------------------------------
+// Base58 / Base58Check
+// ---------------------------------------------------------------------------------------------
+
+const B58_ALPHABET: &[u8; 58] = b"123456789ABCDEFGHJKLMNPQRSTUVWXYZabcdefghijkmnopqrstuvwxyz";
+
+/// The input is read as one big-endian number and written in base 58; every leading 0x00 byte
+/// becomes one leading '1'.
+pub fn base58_encode(b: &[u8]) -> String {
+    let leading_zeros = b.iter().take_while(|&&x| x == 0).count();
+    let fifty_eight = BigUint::from(58u32);
+    let mut num = BigUint::from_bytes_be(b);
+    let mut digits: Vec<u8> = Vec::new(); // least significant first
+    while !num.is_zero() {
+        let rem = &num % &fifty_eight;
+        num = &num / &fifty_eight;
+        let idx = rem.to_u32_digits().first().copied().unwrap_or(0) as usize;
+        digits.push(B58_ALPHABET[idx]);
+    }
+    let mut out = String::with_capacity(leading_zeros + digits.len());
+    for _ in 0..leading_zeros {
+        out.push('1');
+    }
+    for d in digits.iter().rev() {
+        out.push(*d as char);
+    }
+    out
+}
+
+/// None on any character outside the alphabet; every leading '1' becomes one 0x00 byte.
+pub fn base58_decode(s: &str) -> Option<Vec<u8>> {
+    let mut num = BigUint::zero();
+    for c in s.bytes() {
+        let idx = B58_ALPHABET.iter().position(|&a| a == c)?;
+        num = num * 58u32 + idx as u32;
+    }
+    let leading_ones = s.bytes().take_while(|&c| c == b'1').count();
+    let mut out = vec![0u8; leading_ones];
+    if !num.is_zero() {
+        out.extend_from_slice(&num.to_bytes_be());
+    }
+    Some(out)
+}
+
+/// base58(payload || sha256d(payload)[0..4])
+pub fn base58check_encode(payload: &[u8]) -> String {
+    let mut data = payload.to_vec();
+    data.extend_from_slice(&sha256d(payload)[..4]);
+    base58_encode(&data)
+}
+
+/// Returns the payload if the string is valid Base58, at least 4 bytes long and the trailing
+/// 4 bytes are the checksum of the rest.
+pub fn base58check_decode(s: &str) -> Option<Vec<u8>> {
+    let data = base58_decode(s)?;
+    if data.len() < 4 {
+        return None;
+    }
+    let (payload, checksum) = data.split_at(data.len() - 4);
+    if sha256d(payload)[..4] == *checksum {
+        Some(payload.to_vec())
+    } else {
+        None
+    }
+}
+
+// ---------------------------------------------------------------------------------------------
+// DER (ECDSA-Sig-Value ::= SEQUENCE { r INTEGER, s INTEGER })
+// ---------------------------------------------------------------------------------------------
+
+/// Minimal positive two's complement big-endian INTEGER content: no leading zeros, except a
+/// single 0x00 when the top bit would otherwise be set. Zero is the single byte 00.
+fn der_int_content(v: &BigUint) -> Vec<u8> {
+    let mut bytes = v.to_bytes_be(); // minimal; zero -> [0]
+    if bytes[0] & 0x80 != 0 {
+        bytes.insert(0, 0x00);
+    }
+    bytes
+}
+
+/// Strict DER: 30 len 02 rlen R 02 slen S. Only short-form lengths are produced, which covers
+/// every r, s below 2^256 (and more); panics if the sequence content would exceed 127 bytes.
+pub fn der_encode_sig(r: &BigUint, s: &BigUint) -> Vec<u8> {
+    let rb = der_int_content(r);
+    let sb = der_int_content(s);
+    let content_len = 2 + rb.len() + 2 + sb.len();
+    assert!(content_len <= 127, "der_encode_sig: integers too large for short-form lengths");
+    let mut out = Vec::with_capacity(2 + content_len);
+    out.push(0x30);
+    out.push(content_len as u8);
+    out.push(0x02);
+    out.push(rb.len() as u8);
+    out.extend_from_slice(&rb);
+    out.push(0x02);
+    out.push(sb.len() as u8);
+    out.extend_from_slice(&sb);
+    out
+}
+
+/// Parses one `02 len content` INTEGER at the start of `input`; returns (value, rest).
+fn der_parse_int(input: &[u8]) -> Option<(BigUint, &[u8])> {
+    if input.len() < 2 || input[0] != 0x02 {
+        return None;
+    }
+    let len = input[1];
+    if len == 0 || len >= 0x80 {
+        return None; // empty INTEGER is invalid; long-form lengths are not accepted
+    }
+    let len = len as usize;
+    let rest = &input[2..];
+    if rest.len() < len {
+        return None;
+    }
+    let (content, rest) = rest.split_at(len);
+    if content[0] & 0x80 != 0 {
+        return None; // negative
+    }
+    if content.len() > 1 && content[0] == 0x00 && content[1] & 0x80 == 0 {
+        return None; // superfluous leading zero
+    }
+    Some((BigUint::from_bytes_be(content), rest))
+}
+
+/// Strict parse: exact lengths, no trailing bytes, short-form lengths only, minimal and
+/// non-negative integers. Returns (r, s) without any range check (zero is returned as zero).
+pub fn der_decode_sig(der: &[u8]) -> Option<(BigUint, BigUint)> {
+    if der.len() < 2 || der[0] != 0x30 {
+        return None;
+    }
+    if der[1] >= 0x80 || der[1] as usize != der.len() - 2 {
+        return None;
+    }
+    let (r, rest) = der_parse_int(&der[2..])?;
+    let (s, rest) = der_parse_int(rest)?;
+    if !rest.is_empty() {
+        return None;
+    }
+    Some((r, s))
+}
+
+// ---------------------------------------------------------------------------------------------
+// WIF and addresses
+// ---------------------------------------------------------------------------------------------
+
+/// WIF: base58check(version || 32-byte key || (0x01 if compressed))
+pub fn wif_encode(version: u8, key32: &[u8; 32], compressed: bool) -> String {
+    let mut payload = Vec::with_capacity(34);
+    payload.push(version);
+    payload.extend_from_slice(key32);
+    if compressed {
+        payload.push(0x01);
+    }
+    base58check_encode(&payload)
+}
+
+/// P2PKH address: base58check(prefix || 20-byte hash)
+pub fn p2pkh_address(prefix: u8, hash160: &[u8; 20]) -> String {
+    let mut payload = Vec::with_capacity(21);
+    payload.push(prefix);
+    payload.extend_from_slice(hash160);
+    base58check_encode(&payload)
+}
+
+#[cfg(test)]
+mod tests {
+    use super::*;
+    use num_traits::One;
+
+    fn hx(s: &str) -> Vec<u8> {
+        hex_decode(s).expect("valid hex in test")
+    }
+
+    fn big(s: &str) -> BigUint {
+        BigUint::parse_bytes(s.as_bytes(), 16).unwrap()
+    }
+
+    #[test]
+    fn hex_round_trip_and_rejects() {
+        assert_eq!(hex_encode(&[]), "");
+        assert_eq!(hex_encode(&[0x00, 0x0f, 0xa5, 0xff]), "000fa5ff");
+        assert_eq!(hex_decode(""), Some(vec![]));
+        assert_eq!(hex_decode("000fa5ff"), Some(vec![0x00, 0x0f, 0xa5, 0xff]));
+        assert_eq!(hex_decode("000FA5Ff"), Some(vec![0x00, 0x0f, 0xa5, 0xff]));
+        let all: Vec<u8> = (0..=255u8).collect();
+        assert_eq!(hex_decode(&hex_encode(&all)), Some(all.clone()));
+        assert_eq!(hex_decode(&hex_encode(&all).to_uppercase()), Some(all));
+        assert_eq!(hex_decode("0"), None);
+        assert_eq!(hex_decode("abc"), None);
+        assert_eq!(hex_decode("0g"), None);
+        assert_eq!(hex_decode("g0"), None);
+        assert_eq!(hex_decode("0x00"), None);
+        assert_eq!(hex_decode(" 00"), None);
+        assert_eq!(hex_decode("00 "), None);
+        assert_eq!(hex_decode("+1"), None);
+        assert_eq!(hex_decode("é"), None); // two UTF-8 bytes, neither is a hex digit
+    }
+
+    #[test]
+    fn base58_vectors() {
+        let cases: Vec<(Vec<u8>, &str)> = vec![
+            (vec![], ""),
+            (vec![0x00], "1"),
+            (vec![0x00, 0x00, 0x01], "112"),
+            (vec![0x00, 0x00], "11"),
+            (vec![57], "z"),
+            (vec![58], "21"),
+            (vec![0xff], "5Q"),
+            (b"Hello World!".to_vec(), "2NEpo7TZRRrLZSi2U"),
+            (
+                hx("00eb15231dfceb60925886b67d065299925915aeb172c06647"),
+                "1NS17iag9jJgTHD1VXjvLCEnZuQ3rJDE9L",
+            ),
+        ];
+        for (bytes, text) in cases {
+            assert_eq!(base58_encode(&bytes), text);
+            assert_eq!(base58_decode(text), Some(bytes));
+        }
+        assert_eq!(B58_ALPHABET.len(), 58);
+        let mut sorted = B58_ALPHABET.to_vec();
+        sorted.sort();
+        sorted.dedup();
+        assert_eq!(sorted.len(), 58);
+        for c in ['0', 'O', 'I', 'l', '+', '/', ' ', '\n', 'é'] {
+            assert_eq!(base58_decode(&format!("2NEpo7TZ{}RrLZSi2U", c)), None, "char {:?}", c);
+            assert_eq!(base58_decode(&c.to_string()), None);
+        }
+        // round trip with many leading zeros and high bytes
+        for len in 0..40usize {
+            let data: Vec<u8> = (0..len).map(|i| if i < len / 3 { 0 } else { (i * 37 + 200) as u8 }).collect();
+            assert_eq!(base58_decode(&base58_encode(&data)), Some(data));
+        }
+    }
+
+    #[test]
+    fn base58check_round_trip_and_corruption() {
+        for payload in [vec![], vec![0u8], vec![0u8; 21], b"payload".to_vec(), (0..78u8).collect()] {
+            let text = base58check_encode(&payload);
+            assert_eq!(base58check_decode(&text), Some(payload.clone()));
+            // corrupt every position with a different alphabet character
+            let chars: Vec<char> = text.chars().collect();
+            for i in 0..chars.len() {
+                let mut c = chars.clone();
+                c[i] = if c[i] == '2' { '3' } else { '2' };
+                let corrupted: String = c.into_iter().collect();
+                assert_eq!(base58check_decode(&corrupted), None, "{} -> {}", text, corrupted);
+            }
+        }
+        // a real address: payload 00 || hash160
+        assert_eq!(
+            base58check_decode("1BgGZ9tcN4rm9KBzDn7KprQz87SZ26SAMH"),
+            Some(hx("00751e76e8199196d454941c45d1b3a323f1433bd6"))
+        );
+        assert_eq!(base58check_decode("1BgGZ9tcN4rm9KBzDn7KprQz87SZ26SAMJ"), None);
+        assert_eq!(base58check_decode("1BgGZ9tcN4rm9KBzDn7KprQz87SZ26SAM"), None);
+        assert_eq!(base58check_decode("1BgGZ9tcN4rm9KBzDn7KprQz87SZ26SAM0"), None); // bad char
+        assert_eq!(base58check_decode("11BgGZ9tcN4rm9KBzDn7KprQz87SZ26SAMH"), None); // extra zero byte
+        // the plain Base58 vector from base58_vectors is valid Base58 but has no valid checksum
+        assert!(base58_decode("1NS17iag9jJgTHD1VXjvLCEnZuQ3rJDE9L").is_some());
+        assert_eq!(base58check_decode("1NS17iag9jJgTHD1VXjvLCEnZuQ3rJDE9L"), None);
+        // too short for a checksum
+        assert_eq!(base58check_decode(""), None);
+        assert_eq!(base58check_decode("1"), None);
+        assert_eq!(base58check_decode("111"), None);
+        // empty payload: just the checksum of ""
+        assert_eq!(base58check_decode(&base58_encode(&sha256d(&[])[..4])), Some(vec![]));
+    }
+
+    #[test]
+    fn wif_vectors() {
+        let key: [u8; 32] = hx("0c28fca386c7a227600b2fe50b7cae11ec86d3bf1fbe471be89827e19d72aa1d")
+            .try_into()
+            .unwrap();
+        let unc = "5HueCGU8rMjxEXxiPuD5BDku4MkFqeZyd4dZ1jvhTVqvbTLvyTJ";
+        let cmp = "KwdMAjGmerYanjeui5SHS7JkmpZvVipYvB2LJGU1ZxJwYvP98617";
+        assert_eq!(wif_encode(0x80, &key, false), unc);
+        assert_eq!(wif_encode(0x80, &key, true), cmp);
+        let mut payload = vec![0x80];
+        payload.extend_from_slice(&key);
+        assert_eq!(base58check_decode(unc), Some(payload.clone()));
+        payload.push(0x01);
+        assert_eq!(base58check_decode(cmp), Some(payload));
+        // testnet version byte gives a different string
+        assert!(wif_encode(0xef, &key, true).starts_with('c'));
+    }
+
+    #[test]
+    fn address_vectors() {
+        let h: [u8; 20] = hx("751e76e8199196d454941c45d1b3a323f1433bd6").try_into().unwrap();
+        assert_eq!(p2pkh_address(0x00, &h), "1BgGZ9tcN4rm9KBzDn7KprQz87SZ26SAMH");
+        assert_eq!(p2pkh_address(0x00, &[0u8; 20]), "1111111111111111111114oLvT2");
+        // and that hash really is hash160(compressed pubkey of key 1)
+        let g_compressed = hx("0279be667ef9dcbbac55a06295ce870b07029bfcdb2dce28d959f2815b16f81798");
+        assert_eq!(crate::refimpl::hashes::hash160(&g_compressed), h);
+        assert_eq!(
+            crate::refimpl::secp::encode_point(&crate::refimpl::secp::pubkey(&BigUint::one()), true),
+            g_compressed
+        );
+        // testnet prefix
+        let t = p2pkh_address(0x6f, &h);
+        assert!(t.starts_with('m') || t.starts_with('n'));
+        let mut payload = vec![0x6f];
+        payload.extend_from_slice(&h);
+        assert_eq!(base58check_decode(&t), Some(payload));
+    }
+
+    #[test]
+    fn der_encode_known_shapes() {
+        // small values
+        assert_eq!(der_encode_sig(&BigUint::one(), &BigUint::one()), hx("3006020101020101"));
+        assert_eq!(der_encode_sig(&BigUint::zero(), &BigUint::zero()), hx("3006020100020100"));
+        assert_eq!(
+            der_encode_sig(&BigUint::from(0x7fu32), &BigUint::from(0x80u32)),
+            hx("300702017f02020080")
+        );
+        assert_eq!(
+            der_encode_sig(&BigUint::from(0xffu32), &BigUint::from(0x100u32)),
+            hx("3008020200ff02020100")
+        );
+        // a well-known 71-byte signature shape: r with top bit set (33 bytes), s without (32 bytes)
+        let r = big("934b1ea10a4b3c1757e2b0c017d0b6143ce3c9a7e6a4a49860d7a6ab210ee3d8");
+        let s = big("2442ce9d2b916064108014783e923ec36b49743e2ffa1c4496f01a512aafd9e5");
+        let expected = hx(concat!(
+            "3045",
+            "022100",
+            "934b1ea10a4b3c1757e2b0c017d0b6143ce3c9a7e6a4a49860d7a6ab210ee3d8",
+            "0220",
+            "2442ce9d2b916064108014783e923ec36b49743e2ffa1c4496f01a512aafd9e5"
+        ));
+        assert_eq!(der_encode_sig(&r, &s), expected);
+        // short integers (leading zero bytes in the 32-byte form are dropped)
+        let r = big("0000a5b3c1d2e3f405162738495a6b7c8d9eaf0112233445566778899aabbccd");
+        let enc = der_encode_sig(&r, &BigUint::one());
+        assert_eq!(enc[3], 31); // 30 bytes + sign padding because 0xa5 has the top bit set
+        assert_eq!(&enc[4..6], &[0x00, 0xa5]);
+    }
+
+    #[test]
+    fn der_round_trip() {
+        let n_minus_1 = big("fffffffffffffffffffffffffffffffebaaedce6af48a03bbfd25e8cd0364140");
+        let values = vec![
+            BigUint::zero(),
+            BigUint::one(),
+            BigUint::from(0x7fu32),
+            BigUint::from(0x80u32),
+            BigUint::from(0xffu32),
+            BigUint::from(0x100u32),
+            BigUint::from(0x7fffu32),
+            BigUint::from(0x8000u32),
+            big("2442ce9d2b916064108014783e923ec36b49743e2ffa1c4496f01a512aafd9e5"), // top bit clear
+            big("934b1ea10a4b3c1757e2b0c017d0b6143ce3c9a7e6a4a49860d7a6ab210ee3d8"), // top bit set
+            big("00000000000000000000000000000001c9a7e6a4a49860d7a6ab210ee3d80000"), // short
+            n_minus_1,
+            (BigUint::one() << 256usize) - 1u32,
+        ];
+        for r in &values {
+            for s in &values {
+                let der = der_encode_sig(r, s);
+                assert_eq!(der[0], 0x30);
+                assert_eq!(der[1] as usize, der.len() - 2);
+                assert!(der.len() <= 72);
+                assert_eq!(der_decode_sig(&der), Some((r.clone(), s.clone())), "{}", hex_encode(&der));
+            }
+        }
+    }
+
+    #[test]
+    fn der_decode_rejects() {
+        let good = hx("3006020101020101");
+        assert_eq!(der_decode_sig(&good), Some((BigUint::one(), BigUint::one())));
+
+        let bad: Vec<(&str, &str)> = vec![
+            ("", "empty"),
+            ("30", "tag only"),
+            ("3000", "empty sequence"),
+            ("300602010102010100", "trailing byte outside the sequence"),
+            ("300702010102010100", "trailing byte inside the sequence"),
+            ("3005020101020101", "total length too small"),
+            ("3007020101020101", "total length too large"),
+            ("3106020101020101", "wrong sequence tag"),
+            ("3006030101020101", "wrong tag for r"),
+            ("3006020101030101", "wrong tag for s"),
+            ("300702020001020101", "non-minimal r: 00 01"),
+            ("300702010102020001", "non-minimal s: 00 01"),
+            ("30080203000080020101", "non-minimal r: 00 00 80"),
+            ("300702020000020101", "non-minimal zero: 00 00"),
+            ("3006020180020101", "negative r"),
+            ("3006020101020180", "negative s"),
+            ("30060201ff0201ff", "negative r and s"),
+            ("30050200020101", "zero-length r"),
+            ("30050201010200", "zero-length s"),
+            ("300402000200", "both zero length"),
+            ("3006020201020101", "r length runs into s"),
+            ("3006020101020201", "s length exceeds the input"),
+            ("3003020101", "missing s"),
+            ("30050201010201", "s content missing"),
+            ("300402010102", "s header truncated to the tag"),
+            ("308106020101020101", "long-form sequence length"),
+            ("300702810101020101", "long-form integer length"),
+            ("3080020101020101", "indefinite length"),
+        ];
+        for (hex, why) in bad {
+            assert_eq!(der_decode_sig(&hx(hex)), None, "{}: {}", why, hex);
+        }
+
+        // the same defects applied to a realistic signature
+        let r = big("934b1ea10a4b3c1757e2b0c017d0b6143ce3c9a7e6a4a49860d7a6ab210ee3d8");
+        let s = big("2442ce9d2b916064108014783e923ec36b49743e2ffa1c4496f01a512aafd9e5");
+        let der = der_encode_sig(&r, &s);
+        assert_eq!(der_decode_sig(&der), Some((r.clone(), s.clone())));
+        // trailing byte (e.g. a sighash flag left in place)
+        let mut t = der.clone();
+        t.push(0x01);
+        assert_eq!(der_decode_sig(&t), None);
+        // truncated
+        assert_eq!(der_decode_sig(&der[..der.len() - 1]), None);
+        // r without its sign padding -> negative
+        let mut t = vec![0x30, 0x44, 0x02, 0x20];
+        t.extend_from_slice(&der[5..]);
+        assert_eq!(der_decode_sig(&t), None);
+        // s with superfluous padding
+        let mut t = der[..39].to_vec();
+        assert_eq!(&t[37..39], &[0x02, 0x20]);
+        t[1] += 1;
+        t[38] = 0x21;
+        t.push(0x00);
+        t.extend_from_slice(&der[39..]);
+        assert_eq!(t.len(), der.len() + 1);
+        assert_eq!(der_decode_sig(&t), None);
+        // any single bit flip in the 6 structural bytes breaks the parse or changes the values
+        for pos in [0usize, 1, 2, 3, 37, 38] {
+            for bit in 0..8 {
+                let mut t = der.clone();
+                t[pos] ^= 1 << bit;
+                assert_ne!(der_decode_sig(&t), Some((r.clone(), s.clone())), "pos {} bit {}", pos, bit);
+            }
+        }
+    }
+
+    #[test]
+    #[should_panic]
+    fn der_encode_panics_when_too_large_for_short_form() {
+        let huge = BigUint::one() << 600usize;
+        der_encode_sig(&huge, &huge);
+    }
+}
